@@ -163,6 +163,7 @@ type storeRun struct {
 	t0     time.Time
 	u      time.Duration
 	kb     KeyBuf
+	nctx   int // rotates the way the context TTL of an operation is built
 	obs    []stepJ
 	plain  bool // control run: fresh key slices, no scrambling
 	live   bool // the real janitor goroutine is running: Walk and Len are not taken at the same instant
@@ -229,8 +230,17 @@ func (r *storeRun) exec(st stepJ) repJ {
 	ctx := context.Background()
 	op := st.Op
 
-	if op.TTL != 0 {
+	// The effective context TTL is built in several ways: directly; on top of an OUTER context that carries another
+	// TTL (the inner WithTTL shadows it, also when the inner one is the default 0); through an update of a larger cell.
+	r.nctx++
+
+	switch {
+	case op.TTL != 0 && r.nctx%3 == 1:
+		ctx = cache.WithTTL(cache.WithTTL(ctx, -7*r.u, false), TickDur(op.TTL, r.u), false)
+	case op.TTL != 0:
 		ctx = cache.WithTTL(ctx, TickDur(op.TTL, r.u), true)
+	case r.nctx%3 == 1:
+		ctx = cache.WithTTL(cache.WithTTL(ctx, []time.Duration{-5 * r.u, 9 * r.u}[r.nctx%2], false), cache.DefaultTTL, false)
 	}
 
 	if op.Skip && op.Name == "Read" {
